@@ -195,7 +195,7 @@ def run(sh):
         nt, labels = classify(case)
         sh.run_case(case, nontrivial=nt, labels=labels, raise_unattributed=True)
 
-    sh.given(cases(), body, sh.budget(240, 4000), tag="wf")
+    sh.given(cases(), body, sh.budget(192, 3000), tag="wf")
 
 
 _ = os
